@@ -122,3 +122,38 @@ Definition copy_indexes (guard_compares_counts : bool) (index_num_edges edges_nu
   if guard_compares_counts && negb (index_num_edges =? edges_num_rows) then Ok tt (* not carried over *) else
   do _ <- read_prefix ins 0 (Z.to_nat edges_num_rows);
   read_prefix rem 0 (Z.to_nat edges_num_rows).
+
+(* ------------------------------------------------------------------------------------ *)
+(* c/tskit/tables.c tsk_mutation_table_keep_rows (l.4830-4880) + subset_remap_id_column: the
+   parent of every KEPT row is validated (`pj != TSK_NULL` -> `pj < 0 || pj >= num_rows` error,
+   id_map[pj] == TSK_NULL error) and then remapped (`p != TSK_NULL` -> id_map[p]).
+   [strict = false] is the seeded change C09-11: `if (pj >= 0) { if (pj >= num_rows) error }`,
+   which treats every negative value as "no parent" although the remap step tests != TSK_NULL. *)
+Definition validate_parent_scalar (strict : bool) (N : Z) (id_map : list Z) (pj : Z) : res unit :=
+  if strict then validate_parents false N id_map [pj]
+  else if pj >=? 0 then
+         (if pj >=? N then Err E_LIBRARY else
+          do m <- get id_map pj; if m =? TSK_NULL then Err E_LIBRARY else Ok tt)
+       else Ok tt.
+
+Fixpoint validate_scalar_rows (strict : bool) (N : Z) (id_map : list Z) (rows : list (bool * Z)) : res unit :=
+  match rows with
+  | [] => Ok tt
+  | (keep, pj) :: r =>
+      do _ <- (if keep then validate_parent_scalar strict N id_map pj else Ok tt);
+      validate_scalar_rows strict N id_map r
+  end.
+
+Definition mutation_keep_rows (strict : bool) (id_map : list Z) (rows : list (bool * Z)) : res (list (list Z)) :=
+  do _ <- validate_scalar_rows strict (zlen id_map) id_map rows;
+  remap_rows id_map (map (fun kr => (fst kr, [snd kr])) rows).
+
+(* c/tskit/tables.c tsk_table_collection_deduplicate_sites (l.12440-12530): after the integrity
+   check, site_id_map (one entry per site of the ORIGINAL table) is indexed by every
+   mutations.site[j] — only when at least one site was removed.  [full_check = true] is the
+   check in /repo (tsk_table_collection_check_integrity: every mutation's site in range);
+   [false] is the seeded change C09-12 (site table checked only). *)
+Definition deduplicate_sites_entry (full_check : bool) (has_duplicates : bool) (num_sites : Z)
+           (mutation_site : list Z) : res unit :=
+  if full_check && negb (ids_in_range num_sites mutation_site) then Err E_LIBRARY else
+  if has_duplicates then read_all (alloc num_sites 0) mutation_site else Ok tt.
